@@ -140,6 +140,13 @@ def bounded(ctx):
             io.output.section()  # an older section above
             s = io.output.section()
             return s, [io.output.stream]
+        if kind == "section_of_quiet_output":
+            # a section has a gate of its own: created while its output is quiet (and left quiet), it still writes to the
+            # stream of that output whenever ITS gate is open
+            io.output.section()
+            io.output.set_quiet(True)
+            s = io.output.section()
+            return s, [io.output.stream]
         if kind == "io":
             return io, [io.output.stream, io.error_output.stream]
         if kind == "section_io":
@@ -155,7 +162,7 @@ def bounded(ctx):
                 names.update(ms)
         return sorted(n for n in names if n != "_may_write")
 
-    for kind in ("output", "error_output", "section", "io", "section_io"):
+    for kind in ("output", "error_output", "section", "section_of_quiet_output", "io", "section_io"):
         for ansi in (False, True):
             probe, _ = make(kind, ansi)
             for m in methods_of(probe):
